@@ -14,6 +14,10 @@ import tlc
 HOOKS = ['setUp', 'tearDown', 'testSetUp', 'testTearDown']
 TOKEN = re.compile(r'QZ\d+Q')
 HEADER = re.compile(r'^Running (.+) tests:$')
+# what the worker threads of resume_tests print themselves
+BANNER = re.compile(r'^(Could not communicate with subprocess|Incomplete report from subprocess|'
+                    r'Could not start subprocess|Error reading subprocess output)')
+BLOCKLINE = re.compile(r'^  (Ran \d+ tests|Tear down |Set up |Running in a subprocess)|QZ\d+Q')
 
 
 def finish_orders(chk, k, n):
@@ -32,7 +36,7 @@ def finish_orders(chk, k, n):
     return sorted({tuple(v[1]) for v in tlc.printed_tuples(res.out, 'FINISH')})
 
 
-def make_world(wid, k, rng, gates=True, rendezvous=None, bad=True):
+def make_world(wid, k, rng, gates=True, rendezvous=None, bad=True, ntests=2):
     layers, classes, tests = {}, {}, {}
     tok = [0]
 
@@ -43,7 +47,7 @@ def make_world(wid, k, rng, gates=True, rendezvous=None, bad=True):
         l = 'L%d' % i
         layers[l] = {'kind': 'class', 'bases': [], 'hooks': HOOKS}
         ids = []
-        for j in (1, 2):
+        for j in range(1, ntests + 1):
             tid = 't%d_%d' % (i, j)
             ids.append(tid)
             tests[tid] = {'body': [w(), w()]}
@@ -84,6 +88,27 @@ def controller_for(order, n, k):
     return ctl
 
 
+def crash_beside_controller():
+    """layer 1 (head of the order) parks inside its last test; then the child
+    of layer 2 dies without a report; once the parent has reaped it (and had
+    time to say so) layer 1 goes on"""
+    import time
+    state = {}
+
+    def ctl(events, bdir):
+        if 'crashed' not in state:
+            if any(e['e'] == 'Wait' and e['name'] == 'go_L1' for e in events):
+                open(os.path.join(bdir, 'crash_L2'), 'w').close()
+                state['crashed'] = True
+        elif 'reaped' not in state:
+            if any(e['e'] == 'Reaped' and abstract.layer_abstract_name(e['l']) == 'L2' for e in events):
+                state['reaped'] = time.monotonic()
+        elif 'go' not in state and time.monotonic() - state['reaped'] > 0.6:
+            open(os.path.join(bdir, 'go_L1'), 'w').close()
+            state['go'] = True
+    return ctl
+
+
 def observe_seq(world, res):
     rep = res['report']
     toks = {}
@@ -106,9 +131,17 @@ def observe_seq(world, res):
 def observe_par(world, res):
     rep = res['report']
     blocks, stray, cur = [], 0, None
+    inside, pending = 0, False
     for ln in res['stdout'].split('\n'):
         m = HEADER.match(ln)
+        if BANNER.match(ln) and cur is not None:
+            pending = True
+        elif pending and BLOCKLINE.search(ln) and not m:
+            # a worker thread's message is followed by more of the same block
+            inside += 1
+            pending = False
         if m:
+            pending = False
             cur = {'l': abstract.layer_abstract_name(m.group(1)), 'toks': []}
             if cur['l'] in world['layers']:      # not the parent's own empty first layer
                 blocks.append(cur)
@@ -126,7 +159,7 @@ def observe_par(world, res):
     if not res['timed_out'] and (res['rc'] not in (0, 1) or 'Traceback (most recent call last)' in res['stderr']):
         crashed = 'rc=%s' % res['rc']
     tot = rep['total'] or [0, 0, 0, 0]
-    return {'timedOut': bool(res['timed_out']), 'crashed': crashed, 'blocks': blocks, 'stray': stray,
+    return {'timedOut': bool(res['timed_out']), 'crashed': crashed, 'blocks': blocks, 'stray': stray, 'inside': inside,
             'ev': [{'e': 'SP' if e['e'] == 'Spawn' else 'RP', 'l': abstract.layer_abstract_name(e['l'])} for e in ev],
             'failed': res['rc'] != 0, 'ran': tot[0], 'failures': tot[1], 'errors': tot[2],
             'failBag': sorted(rep['failures']), 'errBag': sorted(rep['errors']), 'wall': round(res['wall'], 2)}
@@ -140,7 +173,7 @@ def run(chk, tier, seed, replay=None):
                 'and every N in 2..k+1 TLC enumerates the feasible finish orders; each is forced on the real runner '
                 '(children park at file barriers until min(N,k) of them run at the same time, then each is released '
                 'once the parent has reaped the previous one), with -v 0 / 1 (deferred collector) and -vv (keep-alive '
-                'collector); plus the rendezvous schedule and a spawn failure; TLC compares block order, block content, '
+                'collector); plus the rendezvous schedule, a spawn failure, shuffled runs (--shuffle-seed, 5 tests per layer) and a child that dies while the layer at the head of the order is parked half way (no worker-thread message may land inside a block); TLC compares block order, block content, '
                 'live children at every Spawn, totals and lists with the sequential run, and validates the recorded Spawn / '
                 'Reaped sequence of every run as a behaviour of Parallel.tla itself (unlogged steps chosen by TLC); distinct = distinct '
                 '(k, N, finish order, verbosity)')
@@ -182,12 +215,30 @@ def run(chk, tier, seed, replay=None):
         for n, vb in [(2, ['-v']), (3, ['-vv'])]:
             n_id += 1
             cases.append({'id': 'p%d' % n_id, 'k': 3, 'N': n, 'order': [], 'verb': vb, 'kind': 'shutdown-noise'})
+        # shuffled runs: every child has to shuffle as the sequential run does
+        for n, vb in [(2, ['-v']), (3, []), (2, ['-vv'])]:
+            n_id += 1
+            cases.append({'id': 'p%d' % n_id, 'k': 3, 'N': n, 'order': [], 'kind': 'shuffle',
+                          'verb': vb + ['--shuffle', '--shuffle-seed', str(rng.randrange(1, 10 ** 6))]})
+        # a child dies while the layer at the head of the order is parked half way
+        for n, vb in [(2, ['-v']), (3, []), (2, [])]:
+            n_id += 1
+            cases.append({'id': 'p%d' % n_id, 'k': 3, 'N': n, 'order': [], 'verb': vb, 'kind': 'crash-beside'})
         for c in cases:
             wrng = random.Random(seed * 31 + c['k'])
             if c['kind'] == 'finish-order':
                 c['world'] = make_world(c['id'], c['k'], wrng)
             elif c['kind'] == 'rendezvous':
                 c['world'] = make_world(c['id'], c['k'], wrng, gates=False, rendezvous=(1, 3))
+            elif c['kind'] == 'shuffle':
+                c['world'] = make_world(c['id'], c['k'], wrng, gates=False, ntests=5)
+            elif c['kind'] == 'crash-beside':
+                w = c['world'] = make_world(c['id'], c['k'], wrng, gates=False, bad=False)
+                w['tests']['t1_2']['body'].append({'a': 'wait', 'name': 'go_L1', 'only_child': True, 'timeout': 45.0})
+                w['tests']['t1_2']['body'].append({'a': 'write', 'tok': 'QZ999Q'})
+                w['tests']['t2_1']['body'][:0] = [{'a': 'wait', 'name': 'crash_L2', 'only_child': True, 'timeout': 45.0},
+                                                  {'a': 'crash', 'how': 'exit3', 'only_child': True}]
+                w['env']['barriers'] = ['go_L1', 'crash_L2']
             elif c['kind'] == 'shutdown-noise':
                 c['world'] = make_world(c['id'], c['k'], wrng, gates=False)
                 c['world']['env']['fd2_at_exit'] = ['pool: 2 connections closed', 'bye']
@@ -206,6 +257,8 @@ def run(chk, tier, seed, replay=None):
             env['VERIF_SPAWN_FAIL'] = json.dumps(w['env']['spawn_fail'])
         if c['kind'] == 'finish-order':
             ctl = controller_for(c['order'], c['N'], c['k'])
+        elif c['kind'] == 'crash-beside':
+            ctl = crash_beside_controller()
         else:
             ctl = lambda events, bdir: None     # noqa: E731
         par = runlib.run_cli_controlled(w, args, ctl, timeout=60, env_extra=env)
@@ -222,6 +275,16 @@ def run(chk, tier, seed, replay=None):
             s['layers'] = [l for l in s['layers'] if l != 'L2']
             for key in ('failed', 'ran', 'failures', 'errors', 'failBag', 'errBag'):
                 p[key] = s[key]
+        if c['kind'] == 'crash-beside':
+            # the sequential reference run has no child to die: what remains
+            # comparable is the order and the contiguity of the blocks and the
+            # content of the blocks of the layers that were not killed
+            for b in p['blocks']:
+                if b['l'] == 'L2':
+                    s['tokens']['L2'] = b['toks']
+            for key in ('ran', 'failures', 'errors', 'failBag', 'errBag'):
+                p[key] = s[key]
+            s['failed'] = True
         recs.append({'id': c['id'], 'N': c['N'], 'schedule': '%s %s' % (c['kind'], c['order']),
                      'seq': s, 'par': p})
     chk.sample({'case': {k2: cases[0][k2] for k2 in ('k', 'N', 'order', 'verb', 'kind')}, 'record': recs[0]})
